@@ -24,7 +24,13 @@ B1 ==
      WD(EnumD("E", <<WD(EV("P"), <<Tag>>), EV("Q")>>), <<Tag>>),
      WD(InputD("In", << WD(ArgDD("f", I, IntV(3)), <<Tag>>), ArgDD("e", Named("E"), V("enum", "P")),
                         ArgD("l", ListOf(NonNull(S))), ArgD("sub", Named("In2")) >>), <<Tag>>),
-     InputD("In2", <<ArgD("x", ID)>>) >>
+     InputD("In2", <<ArgD("x", ID)>>),
+     \* an input type with a defaulted field, reached twice side by side from the defaults of another one
+     InputD("Leaf", <<ArgDD("z", I, IntV(1)), ArgD("w", S)>>),
+     InputD("Pair", <<ArgDD("x", Named("Leaf"), V("obj", [w |-> StrV("a")])), ArgDD("y", Named("Leaf"), V("obj", [w |-> StrV("b")])),
+                      ArgDD("l", ListOf(Named("Leaf")), ListV(<<V("obj", [w |-> StrV("c")]), V("obj", [w |-> StrV("d")])>>)),
+                      ArgDD("both", Named("Pair2"), V("obj", [x |-> V("obj", [w |-> StrV("e")]), y |-> V("obj", [w |-> StrV("f")])]))>>),
+     InputD("Pair2", <<ArgD("x", Named("Leaf")), ArgD("y", Named("Leaf"))>>) >>
 
 \* a second base: descriptions, deprecated, extends and an explicit schema
 B2 ==
